@@ -21,7 +21,9 @@ SPEC = dict(
           "finally / except / otherwise re-evaluates the statement whose return/break/continue/error is still travelling); "
           "except type strings in interpolated, raw and single-quoted form x handler shapes x raise form; "
           "ranges with every sign combination of (to - from, step) incl. fractional steps and equal bounds in every loop context; "
-          "if and list/map loop families; random nestings of "
+          "range loops whose bounds / step (variables, len(l), n - 1) the body modifies, in every loop context; guards that raise "
+          "(runtime error, raise through a called function) at every position of if/elif chains, in condition-loop guards and for-in "
+          "iterables, inside and outside try; if and list/map loop families; random nestings of "
           "if/loop/try/function up to depth 4 (3000 quick, 100000 thorough). Compared: ordered marker trace, final value, "
           "error TYPE (no message, no position). Non-trivial = the model's trace has at least two entries."),
     exhaustive="exit kind x except-clause set x otherwise x finally x context, and the range/if/list/map families",
